@@ -924,6 +924,11 @@ def judge(ctx, seg, cases, hist_id):
             # nothing has been completed yet: there is no record to restart from (fresh start needed)
             ctx.hit("no-record-yet")
             continue
+        if outcome == "refuses" and isinstance(tr, dict) and tr["rf"] == tr["cstep"] and tr["cstep"] >= tr["steps"]:
+            # the record on disk is the one of a FINISHED run that was restarted without steps left
+            # (final write_toml of loop()): setup_config stops by design, nothing is left to do
+            ctx.hit("finished-run-record")
+            continue
         if outcome != "starts":
             if in_trunc and (e["op"] == "move" or seg.variant == "renamedOpen"):
                 ctx.fail("C08:restart-toml-renamed-before-flush",
@@ -1183,6 +1188,9 @@ def replay(ctx, obj):
                     return 1
         print("restart.toml on the crashed tree:", tr if not isinstance(tr, dict) else {k: tr[k] for k in ("cstep", "active")})
         print("restart:", res.get("outcome"), res.get("phase"), res.get("error"))
+        if isinstance(tr, dict) and res.get("outcome") == "refuses" and tr["rf"] == tr["cstep"] and tr["cstep"] >= tr["steps"]:
+            print("the record on disk is the one of a finished run restarted without steps left: stopping is by design")
+            return 0
         if tr is None and len(r["chain"]) == 1 and res.get("outcome") == "refuses":
             # as in run(): no restart.toml has been completed yet, there is nothing to restart from
             print("no restart record on disk yet (crash inside the first step): not a restart case")
